@@ -386,10 +386,13 @@ func (c *consumerGroup) consumerExpired(consumerID string) func() {
 			c.logger.Errorf("Failed to remove consumer %s from consumer group %s: %v",
 				consumerID, c.id, err.Error())
 			// Reset the timer so we can try again later.
-			timer := c.startMemberTimer(consumerID)
 			c.mu.Lock()
-			consumer := c.members[consumerID]
-			consumer.timer = timer
+			// The member may be gone all the same, e.g. when the removal was
+			// committed although proposing it reported an error, or when
+			// the consumer left on its own in the meantime.
+			if consumer, ok := c.members[consumerID]; ok {
+				consumer.timer = c.startMemberTimer(consumerID)
+			}
 			c.mu.Unlock()
 		}
 	}
